@@ -23,7 +23,7 @@ ID = "C07"
 LEVEL = "model_checking"
 TECHNIQUE = "explicit-state BFS over real storage objects (all dump keys as transitions, full read alphabet on every state) against a reference masked NumPy array"
 RULE = ("backends FileArray (rank <= 2 also with a custom filename_template), DictArray, SharedMemoryDictArray x full shapes (3,), (2,3) (thorough: (3,) depth 5, (2,3) depth 3, (3,2) depth 2, (2,3,2) depth 1) x all 2^rank external/internal masks; "
-        "transitions = persist() (dict backends; the canonical state includes which elements differ from the persisted copy) and dump(key, fresh value; for the all-external masks of rank <= 2 also the same exploration with None as the value of every odd write; for masks with internal axes of rank <= 2 also with every odd element handed over as a nested Python list instead of an ndarray) for EVERY external key tuple over ints in [-n,n) and slices {:, ::2, ::-1, 1:}; reads on every state = "
+        "transitions = persist() (dict backends; the canonical state includes which elements differ from the persisted copy) and dump(key, fresh value; for the all-external masks of rank <= 2 also the same exploration with None, and with a 1-tuple, as the value of every odd write; for masks with internal axes of rank <= 2 also with every odd element handed over as a nested Python list instead of an ndarray) for EVERY external key tuple over ints in [-n,n) and slices {:, ::2, ::-1, 1:}; reads on every state = "
         "__getitem__ for every full-rank key tuple from the same per-axis menu, to_array(splat_internal None/False/True), mask, mask_linear, has_index, (mask, mask_linear and every all-int element read also BETWEEN the writes of a history, on the same object) "
         "get_from_index, persist+reopen, and error keys (each axis out of range by +-1, rank +-1). SharedMemoryDictArray at depth 1 for rank 2 in quick (every proxy call is an RPC). States merged by stored content with values renamed by first appearance")
 ASSUMPTIONS = ["reference = numpy masked object array of the full shape (vmc/props/c07.py:Ref)",
@@ -77,6 +77,8 @@ def make(cfg, folder):
 
 def value_for(cfg, step):
     _, _, _, internal = geometry(cfg)
+    if cfg.get("values") == "tuple-odd" and not internal and step % 2 == 1:
+        return (f"v{step}",)  # a 1-tuple is an element like any other (it must not be unwrapped or broadcast)
     if cfg.get("values") == "none-odd" and not internal and step % 2 == 1:
         return None  # None is a legitimate element of an object array: written, not missing
     if cfg.get("values") == "list-odd" and internal and step % 2 == 1:
@@ -437,6 +439,8 @@ def plan(tier, seed):
                     # the same exploration with None as the value of every odd write (a written None is not a missing element)
                     for c in range(nch):
                         units.append((f"rank{len(full)}-depth{depth}-none-values", ("bfs", {**cfg, "values": "none-odd"}, depth_b, c, nch)))
+                    for c in range(nch):
+                        units.append((f"rank{len(full)}-depth{depth}-tuple-values", ("bfs", {**cfg, "values": "tuple-odd"}, depth_b, c, nch)))
                 if not all(mask) and len(full) <= 2:
                     # internal axes, every odd write hands the element over as a nested list (same reads as for ndarrays)
                     for c in range(nch):
